@@ -3,7 +3,7 @@
 From Coq Require Import List NArith Arith.
 From MDW Require Import Bytes StackInfo StackInfoStrict StackRef StackIncl Sanitize Elf ElfProofs SoVersion
                         DsoDebug DsoStream TotalityProofs Ptrace PtraceProofs
-                        MemWriter Writer MiniDump MiniDumpTotal.
+                        MemWriter Writer MiniDump MiniDumpTotal Image ImageProofs.
 Import ListNotations.
 Local Open Scope N_scope.
 
@@ -46,3 +46,10 @@ Theorem C02_linker_stream_total : forall m phdr phnum,
   (exists o, dso_stream m phdr phnum = DOk o) \/ dso_stream m phdr phnum = DErr \/ dso_stream m phdr phnum = DUnspec.
 Proof. exact dso_stream_total. Qed.
 Print Assumptions C02_linker_stream_total.
+
+(* The composed layout of ALL section writers (Image.v, in the order of the regenerated stream plan, with the real
+   write_at semantics): whatever the content - any number of threads, modules, regions, names, descriptors, any
+   failed soft step - building the image never errs and never takes the Panic outcome. *)
+Theorem C02_whole_image_total : forall c, exists dirs s', image c empty_wst = MemWriter.Ok (dirs, s').
+Proof. exact image_total. Qed.
+Print Assumptions C02_whole_image_total.
